@@ -2,7 +2,8 @@ package main
 
 // family "link" (C05): two REAL sessions — A initiator, B acceptor — built by the real factory on memory or file
 // stores and driven synchronously; the harness is both networks and the scheduler.  Ops (lean/Qfx/Drv/Link.lean):
-//   cfg <bs> <chunkA> <chunkB> <hb> [store=mem|file]   connect   send A|B <id>   del A|B   cut   restart A|B
+//   cfg <bs> <chunkA> <chunkB> <hb> [store=mem|file] [nx=1]   (nx=1: EnableNextExpectedMsgSeqNum on both engines; never generated,
+//   only in corpus/C05/nx-gapfill-loses-messages.ops)   connect   send A|B <id>   del A|B   cut   restart A|B
 //   timer A|B hb|peer|logon|logout   flush A|B   settled
 // Observation: status ; a2b n ; b2a n ; sentA … ; sentB … ; dlvA … ; dlvB … ; ctrA S T ; ctrB S T ; stA … ; stB …
 import (
@@ -49,6 +50,7 @@ type linkSide struct {
 }
 
 type linkImpl struct {
+	nx       bool // EnableNextExpectedMsgSeqNum on both engines
 	a, b     *linkSide
 	a2b, b2a [][]byte
 	dir      string
@@ -92,6 +94,9 @@ func (l *linkImpl) mkSide(initiator bool, snd, tgt string, bsi int, chunk, hb st
 	}
 	if bsi == 5 {
 		st.Set(config.DefaultApplVerID, "9")
+	}
+	if l.nx {
+		st.Set(config.EnableNextExpectedMsgSeqNum, "Y")
 	}
 	g := quickfix.NewSettings()
 	if l.useFile {
@@ -172,6 +177,12 @@ func (l *linkImpl) exec(op string) string {
 			l.closeAll()
 			l.a2b, l.b2a = nil, nil
 			l.useFile = len(w) > 5 && w[5] == "store=file"
+			l.nx = false
+			for _, x := range w[5:] {
+				if x == "nx=1" {
+					l.nx = true
+				}
+			}
 			if l.useFile {
 				l.dir = filepath.Join(workRoot(), fmt.Sprintf("link.%d.%d", os.Getpid(), l.caseNo))
 				os.MkdirAll(l.dir, 0o755)
